@@ -135,6 +135,15 @@ class Interpreter(BaseInterpreter[TContext, TEvent]):
         #: a macrostep completes without having done so. Bounds a runaway
         #: `raise` without ever throttling external `send()` traffic.
         self._raise_depth: int = 0
+        #: Self-raised event families. Every event dequeued from outside
+        #: starts a family; events the machine queues onto itself while
+        #: processing a member join that member's family. Per family:
+        #: `[events raised so far, members still queued]`.
+        self._chains: Dict[int, List[int]] = {}
+        #: `id(event) -> (event, family)` for queued self-raised events.
+        self._chain_of: Dict[int, Any] = {}
+        self._current_chain: Optional[int] = None
+        self._chain_seq: int = 0
         #: True while `_run_event_loop` is inside `_process_event...`.
         self._processing: bool = False
 
@@ -442,21 +451,53 @@ class Interpreter(BaseInterpreter[TContext, TEvent]):
                         event.type,
                         self.id,
                     )
+                    stale_member = self._chain_of.pop(id(event), None)
+                    if stale_member is not None:
+                        stale_chain = self._chains.get(stale_member[1])
+                        if stale_chain is not None:
+                            stale_chain[1] -= 1
+                            if stale_chain[1] <= 0:
+                                self._chains.pop(stale_member[1], None)
                     self._event_queue.task_done()
                     continue
 
-                if self._raise_depth > limit:
-                    logger.error(
-                        "🛑 Exceeded %d chained self-raised events on '%s'. "
-                        "This means an action raises the event that triggers "
-                        "it. Breaking the chain; externally queued events are "
-                        "unaffected.",
-                        limit,
-                        self.id,
-                    )
-                    self._raise_depth = 0
-                    self._event_queue.task_done()
-                    continue
+                # 🛟 Which self-raised family does this event belong to?
+                #
+                # 🏛️ Architecture decision: the bound is a BUDGET PER FAMILY
+                #    (one external event and everything it causes the
+                #    machine to raise onto itself), not a depth that is reset
+                #    whenever a macrostep raises nothing. The reset made the
+                #    breaker blind to a runaway chain interleaved with a
+                #    harmless event - e.g. an onDone that re-enters the
+                #    machine, re-raising itself plus one targetless done
+                #    event per round: the harmless one zeroed the counter
+                #    every time and the loop spun forever without yielding.
+                member = self._chain_of.pop(id(event), None)
+                if member is not None:
+                    chain_id = member[1]
+                    chain = self._chains.get(chain_id, [0, 1])
+                    chain[1] -= 1
+                    if chain[0] > limit:
+                        if len(chain) == 2:
+                            chain.append(1)  # logged once per family
+                            logger.error(
+                                "🛑 Exceeded %d chained self-raised events "
+                                "on '%s'. This means an action raises the "
+                                "event that triggers it. Breaking the chain; "
+                                "externally queued events are unaffected.",
+                                limit,
+                                self.id,
+                            )
+                        if chain[1] <= 0:
+                            self._chains.pop(chain_id, None)
+                        self._event_queue.task_done()
+                        continue
+                else:
+                    self._chain_seq += 1
+                    chain_id = self._chain_seq
+                    self._chains[chain_id] = [0, 0]
+                self._current_chain = chain_id
+                self._raise_depth = self._chains.get(chain_id, [0])[0]
 
                 logger.debug(
                     "🔥 Event '%s' dequeued for processing in '%s'.",
@@ -488,11 +529,7 @@ class Interpreter(BaseInterpreter[TContext, TEvent]):
                 #    here; we log and carry on with the next event.
                 try:
                     self._processing = True
-                    depth_before = self._raise_depth
                     await self._process_event_and_transient_transitions(event)
-                    # ✅ A macrostep that raised nothing ends the chain.
-                    if self._raise_depth == depth_before:
-                        self._raise_depth = 0
                 except asyncio.CancelledError:
                     raise
                 except Exception as exc:
@@ -506,6 +543,11 @@ class Interpreter(BaseInterpreter[TContext, TEvent]):
                     )
                 finally:
                     self._processing = False
+                    # 🧹 A family with nothing left in the queue is over.
+                    finished = self._chains.get(chain_id)
+                    if finished is not None and finished[1] <= 0:
+                        self._chains.pop(chain_id, None)
+                    self._current_chain = None
 
                 self._event_queue.task_done()
 
@@ -821,8 +863,8 @@ class Interpreter(BaseInterpreter[TContext, TEvent]):
             #    self-feeding shape that can spin the loop. Count it so
             #    `_run_event_loop` can break the chain; external `send()`
             #    calls never pass through here.
-            if actor is self and self._processing:
-                self._raise_depth += 1
+            if actor is self:
+                self._note_self_raised(target_event)
             await self._send_to_actor(actor, target_event)
             return
 
@@ -862,6 +904,22 @@ class Interpreter(BaseInterpreter[TContext, TEvent]):
             if previous is not None:
                 previous()
             self._scheduled_sends[key] = _cancel
+
+    def _note_self_raised(self, event: Any) -> None:
+        """Books an event this machine queues onto itself while processing.
+
+        Args:
+            event (Any): The event about to be sent to `self`.
+        """
+        if not self._processing or self._current_chain is None:
+            return
+        chain = self._chains.setdefault(self._current_chain, [0, 0])
+        chain[0] += 1
+        chain[1] += 1
+        self._raise_depth = chain[0]
+        # The event object is kept alongside so its id cannot be reused
+        # while the entry exists.
+        self._chain_of[id(event)] = (event, self._current_chain)
 
     @staticmethod
     async def _send_to_actor(
